@@ -100,13 +100,18 @@ def run(tier, seed):
     # workspace plugins and installed (site-packages) fixtures of the same names — precedence decides which entry a
     # name gets, hence its sort class and whether the scope filter lets it through
     for i in range(40 if tier == "quick" else 600):
-        ws = wsgen.gen_workspace(r.rng)
+        # every sixth workspace is the shape on which the two trailing passes decide: no conftest on the path defines
+        # the name, a workspace plugin and an installed plugin both do, and the workspace plugin is re-analysed (it
+        # then stands BEHIND the installed one in the per-name list)
+        fixed = (i % 6 == 0)
+        ws = (wsgen.gen_workspace(r.rng, force={0: "absent", 1: "absent", 2: "absent", 3: "absent"}, want_plugin=True, want_third=1)
+              if fixed else wsgen.gen_workspace(r.rng))
         name = "v%d" % i
         cases.case(name, ws.meta)
         wsgen.emit_setup(cases, ws)
         # a re-analysis of a plugin module changes the order of the per-name list (site-packages may come first then)
         for p in ws.plugin:
-            if r.rng.random() < 0.5 and p in ws.files:
+            if (fixed and p == "plug/plugmod.py" or r.rng.random() < 0.5) and p in ws.files:
                 cases.op("analyze", p, "t%d" % list(ws.files).index(p))
         for p in ws.files:
             cases.q("avail", p)
